@@ -129,6 +129,23 @@ theorem toPlain_parse (x : Str) (h : bsOk (parse x) = true) :
 
 example : bsOk (parse "a\\*b\\c*\\".toList) = true := by decide
 
+/-- The library's own round trip through the plain form (`replace_string`, plain-form mode, with an
+expression that matches nothing: plain form, backslashes re-escaped, parsed again) hands back the
+identical value for every string without placeholders in which no literal `\` stands immediately in
+front of a wildcard — in particular for every run of backslashes and for a backslash in front of a
+literal `*` / `?`, where the bare plain form is lossy. -/
+theorem replace_identity_partial (s : SStr) (hph : noPh s = true) (hbs : bsWildOk s = true) :
+    replaceIdentity s = s :=
+  parseAux_reescape_toPlain s hph hbs
+
+example : noPh [.lit '\\', .lit '\\', .lit '\\', .lit '*', .star, .lit '\\'] = true ∧
+    bsWildOk [.lit '\\', .lit '\\', .lit '\\', .lit '*', .star, .lit '\\'] = true ∧
+    bsOk [.lit '\\', .lit '\\', .lit '\\', .lit '*', .star, .lit '\\'] = false := by decide
+
+/-- the full statement is false (D3): a literal `\` in front of a wildcard comes back as a literal star -/
+theorem replace_identity_lossy : replaceIdentity [.lit '\\', .star] = [.lit '*'] := by
+  decide
+
 /-! ## 6. Field names
 
 The target's reading of a quoted name (`decodeField`, `readQuotedField`) is strict: escape-aware,
